@@ -80,7 +80,7 @@ def prove(pc, goal, timeout_s=10.0, use_cvc5=True, key_extra=""):
         else:
             # second attempt with a different configuration before giving up
             s2 = z3.Solver()
-            s2.set("timeout", int(timeout_s * 1000))
+            s2.set("timeout", int(timeout_s * 500))
             s2.set("smt.mbqi", False)
             s2.set("smt.random_seed", 7)
             for f in fs:
@@ -90,7 +90,7 @@ def prove(pc, goal, timeout_s=10.0, use_cvc5=True, key_extra=""):
             STATS["z3_s"] += dt
             if r2 == z3.unsat:
                 res = dict(status="proved", model=None, ms=dt * 1000, backend="z3(no-mbqi)")
-    if res is None and use_cvc5 and os.path.exists(CVC5):
+    if res is None and use_cvc5 and strings and os.path.exists(CVC5):
         r = run_cvc5(fs, timeout_s)
         dt = time.time() - t0
         if r == "unsat":
@@ -98,7 +98,19 @@ def prove(pc, goal, timeout_s=10.0, use_cvc5=True, key_extra=""):
         elif r == "sat":
             res = dict(status="refuted", model=None, ms=dt * 1000, backend="cvc5")
     if res is None:
-        res = dict(status="unknown", model=None, ms=(time.time() - t0) * 1000, backend="z3+cvc5")
+        # candidate counter-model from the quantifier-free hypotheses only (may be spurious; decided by replay)
+        cand = None
+        try:
+            s3 = z3.Solver()
+            s3.set("timeout", 2000)
+            for f in fs:
+                if not _has_quant(f):
+                    s3.add(f)
+            if s3.check() == z3.sat:
+                cand = s3.model()
+        except z3.Z3Exception:
+            cand = None
+        res = dict(status="unknown", model=None, candidate=cand, ms=(time.time() - t0) * 1000, backend="z3+cvc5")
     _cache[key] = res
     _keep.append(fs)
     return res
